@@ -64,3 +64,19 @@ def exc_kind(ex):
     return "Other:" + type(ex).__name__
 
 DOCUMENTED = {"Value", "Checksum", "Key", "Path", "Depth"}
+
+
+def conf_params(c):
+    """the parameter dictionary of a CoinConf object, found structurally (no dependence on a private attribute name)"""
+    ds = [v for v in vars(c).values() if isinstance(v, dict)]
+    if len(ds) != 1:
+        raise RuntimeError("cannot locate the parameter dictionary of %r" % (c,))
+    return ds[0]
+
+
+def fct_call_names(v):
+    """the accessor names of a BipCoinFctCallsConf object, found structurally"""
+    ts = [x for x in vars(v).values() if isinstance(x, tuple) and x and all(isinstance(t, str) for t in x)]
+    if len(ts) != 1:
+        raise RuntimeError("cannot locate the call names of %r" % (v,))
+    return ts[0]
